@@ -91,7 +91,7 @@ def reg_check(case):
 
 
 PARTS = {
-    "sim": {"check": check_case, "strategy": cases, "budget": {"quick": 1500, "thorough": 40000}},
+    "sim": {"check": check_case, "strategy": cases, "budget": {"quick": 3000, "thorough": 40000}},
     "register": {"check": reg_check, "strategy": lambda tier: reg_cases, "budget": {"quick": 200, "thorough": 2000}},
 }
 
